@@ -907,7 +907,7 @@ func evalPlaceholder(ctx context.Context, scope *ReferenceScope, expr parser.Pla
 			return nil, NewStatementReplaceValueNotSpecifiedError(expr)
 		}
 	}
-	return Evaluate(ctx, scope, replace.Values[idx])
+	return Evaluate(context.WithValue(ctx, StatementReplaceValuesContextKey, replace.outer), scope, replace.Values[idx])
 }
 
 // EvalRowValue returns single or multiple fields, single record
